@@ -232,6 +232,9 @@ func (x *c12) exploreWorker(fn *ssa.Function, bind c12Bind, kind c12WorkerKind, 
 		return wcOf(resolve(st, ci.Common().Value), 1)
 	}
 	cl := &xClient{NoInline: x.noInline}
+	if oracle != nil {
+		cl.Outer = func(v ssa.Value) (xVal, bool) { return oracle(v), true }
+	}
 	cl.OnInstr = func(st *xState, in ssa.Instruction, replay bool) bool {
 		switch v := in.(type) {
 		case *ssa.Defer:
